@@ -7,7 +7,7 @@ from jaqalpaq.core.algorithm.expand_subcircuits import SubcircuitExpander
 from jaqalpaq.core.algorithm.expand_macros import MacroExpander
 from jaqalpaq.core.gatedef import AbstractGate, GateDefinition
 from contracts_subcircuits import wf_stmt, wf_expander
-from contracts_macros import wf_macros
+from contracts_macros import wf_macros, wf_body
 
 
 @spec
@@ -49,7 +49,7 @@ class XCircuitFrame:
 @contract("core.algorithm.expand_macros:MacroExpander.visit_Circuit", props=["C11", "C04"])
 class MCircuitFrame:
     def requires(self, circuit):
-        return type_is(self, MacroExpander) and is_bool(self.preserve_definitions) and wf_circuit(circuit)
+        return type_is(self, MacroExpander) and is_bool(self.preserve_definitions) and wf_circuit(circuit) and wf_body(circuit._body)
 
     modifies = ("self.macros",)
 
